@@ -630,8 +630,21 @@ func VerifC07_StorageFaultAtAnyPut() {
 	var before []vDumpEntry
 	env.view(func(tx *bbolt.Tx) { before = verifDump(tx) })
 
-	const nOps = 13
+	const nOps = 14
 	op := verifrt.Choose("op", nOps)
+	if op == 13 {
+		// repair work for the integrity checker: the unique-index entry of emp a
+		// and its membership in the role index are gone
+		err := env.db.Update(nil, func(ctx MutateContext) error {
+			tx := ctx.Tx()
+			if err := Path(tx, vRootPath, IndexesBucket, vEmpType, vFName).Delete([]byte("Na")); err != nil {
+				return err
+			}
+			return Path(tx, vRootPath, IndexesBucket, vEmpType, vFRoles, "r1").Delete(PrependFieldType(TypeString, []byte("a")))
+		})
+		verifrt.Assert(err == nil, "C07 corruption for the repair operation injected")
+		env.view(func(tx *bbolt.Tx) { before = verifDump(tx) })
+	}
 	maxK := 14
 	if verifrt.Tier() == 1 {
 		maxK = 30
@@ -670,13 +683,15 @@ func VerifC07_StorageFaultAtAnyPut() {
 			_, _, opErr = env.emp.rcDepts.SetLinkCount(tx, []byte("a"), []byte(xy), 3)
 		case 12:
 			opErr = env.emp.Update(ctx, &vEmp{Id: "a", Name: "Nz", Roles: []string{"r1", "r2"}}, MapFieldChecker{vFName: struct{}{}, vFRoles: struct{}{}})
+		case 13:
+			opErr = env.emp.CheckIntegrity(ctx, true, func(error, bool) {})
 		}
 		return opErr
 	})
 	fired := verifrt.PutFaultFired()
 	verifrt.Settle()
 	opName := []string{"create", "update", "delete", "create through child store", "update through child store", "delete through child store",
-		"AddLinks", "SetLinks", "RemoveLinks", "IncrementLinkCount", "DecrementLinkCount", "SetLinkCount", "field-restricted update"}[op]
+		"AddLinks", "SetLinks", "RemoveLinks", "IncrementLinkCount", "DecrementLinkCount", "SetLinkCount", "field-restricted update", "CheckIntegrity in fix mode"}[op]
 	verifrt.Assert((opErr != nil) == fired, "C07 a store operation reports an error iff the storage engine failed one of its writes: "+opName)
 	verifrt.Assert((txErr != nil) == fired, "C07 the transaction fails iff a storage error occurred in it: "+opName)
 	if fired {
